@@ -16,7 +16,7 @@ VARIABLES l,        \* index of the event being processed
           nilsink   \* the history runs without a prune sink
 
 tvars == <<l, ph, poison, nilsink>>
-allvars == <<nodes, votes, bal, just, fin, pin, l, ph, poison, nilsink>>
+allvars == <<nodes, votes, bal, just, fin, pin, detached, l, ph, poison, nilsink>>
 
 E == Trace[l]
 ToSet(s) == {s[i] : i \in DOMAIN s}
@@ -32,10 +32,10 @@ Note(what) == PrintT(<<"NOTE", what, l, E.h>>)
 Advance == l' = l + 1 /\ ph' = "call"
 ToObs == l' = l /\ ph' = "obs"
 Fail == /\ poison' = TRUE /\ l' = l + 1 /\ ph' = "call"
-        /\ UNCHANGED <<nodes, votes, bal, just, fin, pin, nilsink>>
+        /\ UNCHANGED <<nodes, votes, bal, just, fin, pin, detached, nilsink>>
 
 TraceInit == /\ l = 1 /\ ph = "call" /\ poison = TRUE /\ nilsink = FALSE
-             /\ nodes = <<>> /\ votes = <<>> /\ bal = <<>>
+             /\ nodes = <<>> /\ votes = <<>> /\ bal = <<>> /\ detached = {}
              /\ just = [epoch |-> 0, root |-> 0] /\ fin = [epoch |-> 0, root |-> 0] /\ pin = <<>>
              /\ TLCSet(1, 1)
 
@@ -44,7 +44,7 @@ DoInit ==
     /\ E.ev = "Init"
     /\ IF E.out = "ok" /\ E.ret.ok = 1 /\ E.j.epoch >= E.f.epoch /\ E.spe = SPE
        THEN /\ nodes' = <<NewNode(E.root, E.slot, E.parent, E.j.epoch, E.f.epoch)>>
-            /\ votes' = <<>>
+            /\ votes' = <<>> /\ detached' = {}
             /\ bal' = E.bal
             /\ just' = CPRec(E.j) /\ fin' = CPRec(E.f)
             /\ pin' = <<E.root, E.slot>>
@@ -54,7 +54,7 @@ DoInit ==
             /\ Fail
 
 SkipPoisoned == /\ poison /\ E.ev # "Init"
-                /\ l' = l + 1 /\ UNCHANGED <<nodes, votes, bal, just, fin, pin, ph, poison, nilsink>>
+                /\ l' = l + 1 /\ UNCHANGED <<nodes, votes, bal, just, fin, pin, detached, ph, poison, nilsink>>
 
 \* a call that panicked or did not return within the watchdog
 Crashed == /\ ~poison /\ E.ev # "Init" /\ ph = "call" /\ E.out # "ok"
@@ -95,18 +95,18 @@ CallUpdateJustified ==
            cls == UJClass(Ctx, E.trigger, j, f, B(E.balerr)) IN
        CASE cls = "noop" ->
               IF E.ret.ok = 1 /\ E.pruned = <<>>
-              THEN ToObs /\ UNCHANGED <<nodes, votes, bal, just, fin, pin, poison, nilsink>>
+              THEN ToObs /\ UNCHANGED <<nodes, votes, bal, just, fin, pin, detached, poison, nilsink>>
               ELSE Mismatch("UpdateJustified older/equal must be a no-op", <<1, <<>>>>, <<E.ret.ok, E.pruned>>) /\ Fail
          [] cls = "refused" ->
               IF E.ret.ok = 0 /\ E.pruned = <<>>
-              THEN ToObs /\ UNCHANGED <<nodes, votes, bal, just, fin, pin, poison, nilsink>>
+              THEN ToObs /\ UNCHANGED <<nodes, votes, bal, just, fin, pin, detached, poison, nilsink>>
               ELSE Mismatch("UpdateJustified must refuse", <<0, <<>>>>, <<E.ret.ok, E.pruned>>) /\ Fail
          [] OTHER ->
               IF fin = f /\ ~(E.ret.ok = 1 /\ E.pruned = <<>>)
               THEN Mismatch("UpdateJustified accepted update", <<1, <<>>>>, <<E.ret.ok, E.pruned>>) /\ Fail
               ELSE /\ just' = j /\ fin' = f /\ bal' = E.bal
                    /\ pin' = IF fin # f THEN <<>> ELSE pin
-                   /\ UNCHANGED <<nodes, votes, poison, nilsink>>
+                   /\ UNCHANGED <<nodes, votes, detached, poison, nilsink>>
                    /\ IF fin # f THEN l' = l /\ ph' = "prune" ELSE ToObs
 
 \* evaluated in the updated state: fin is the new finalized checkpoint
@@ -133,25 +133,20 @@ PhasePrune ==
            P == ToPrune(c, fin)
            P2 == ToPruneByOrder(fin)
            canon == IF Has(a) THEN CanonicalPruned(c, fin) ELSE {}
-           h == IF Has(a) THEN FindHeadOf(c, a) ELSE <<FALSE, NoRef>>
            k == E.sinkfail
        IN
        IF P = {} /\ (P2 = {} \/ "fc-prune-order" \notin KnownDeviations)
        THEN IF E.ret.ok = 1 /\ E.pruned = <<>>
-            THEN ToObs /\ UNCHANGED <<nodes, votes, bal, just, fin, pin, poison, nilsink>>
+            THEN ToObs /\ UNCHANGED <<nodes, votes, bal, just, fin, pin, detached, poison, nilsink>>
             ELSE Mismatch("nothing to prune", <<1, <<>>>>, <<E.ret.ok, E.pruned>>) /\ Fail
-       ELSE IF ~h[1]
-       THEN \* no viable head below the new finalized node: an error that prunes nothing is tolerated
-            IF E.ret.ok = 0 /\ E.pruned = <<>>
-            THEN Note("prune skipped: no viable head in the finalized subtree") /\ ToObs
-                 /\ UNCHANGED <<nodes, votes, bal, just, fin, pin, poison, nilsink>>
-            ELSE Mismatch("prune without viable head", <<0, <<>>>>, <<E.ret.ok, E.pruned>>) /\ Fail
        ELSE IF ReportOK(P, canon, k) /\ NodesAfter(Removed(P, k))
        THEN /\ nodes' = Remove(Removed(P, k))
+            /\ detached' = (detached \ Removed(P, k)) \cup DetachedBy(Removed(P, k), Removed(P, k) = P, fin.root)
             /\ ToObs /\ UNCHANGED <<votes, bal, just, fin, pin, poison, nilsink>>
        ELSE IF "fc-prune-order" \in KnownDeviations /\ P2 # P /\ ReportOK(P2, canon, k) /\ NodesAfter(Removed(P2, k))
        THEN /\ Deviation("fc-prune-order")
             /\ nodes' = Remove(Removed(P2, k))
+            /\ detached' = (detached \ Removed(P2, k)) \cup DetachedBy(Removed(P2, k), Removed(P2, k) = P2, fin.root)
             /\ ToObs /\ UNCHANGED <<votes, bal, just, fin, pin, poison, nilsink>>
        ELSE Mismatch("prune report", <<P, canon>>, <<E.ret.ok, E.pruned, E.obs.nodes>>) /\ Fail
 
@@ -199,7 +194,7 @@ CallQuery ==
     /\ E.ev = "Query"
     /\ LET c == Ctx IN
        IF QueryOK(c)
-       THEN Advance /\ UNCHANGED <<nodes, votes, bal, just, fin, pin, poison, nilsink>>
+       THEN Advance /\ UNCHANGED <<nodes, votes, bal, just, fin, pin, detached, poison, nilsink>>
        ELSE Mismatch(E.q, QueryExpected(c), E.ret) /\ Fail
 
 PhaseCall == /\ ph = "call" /\ ~poison /\ E.ev # "Init" /\ E.out = "ok"
@@ -213,7 +208,7 @@ PhaseObs ==
            okCps == o.just = <<just.epoch, just.root>> /\ o.fin = <<fin.epoch, fin.root>> /\ o.pin = pin
            okHead == o.hashead = 0 \/ <<B(o.head[1]), <<o.head[2], o.head[3]>>>> = HeadOf(Ctx)
        IN IF okNodes /\ okCps /\ okHead
-          THEN Advance /\ UNCHANGED <<nodes, votes, bal, just, fin, pin, poison, nilsink>>
+          THEN Advance /\ UNCHANGED <<nodes, votes, bal, just, fin, pin, detached, poison, nilsink>>
           ELSE /\ IF ~okNodes THEN Mismatch("nodes after call", Keys, o.nodes)
                   ELSE IF ~okCps THEN Mismatch("checkpoints after call", <<just, fin, pin>>, <<o.just, o.fin, o.pin>>)
                   ELSE Mismatch("head after call", HeadOf(Ctx), o.head)
